@@ -4,8 +4,8 @@
    Task object holds a new asyncio task since the previous event, running: target invocations in progress}. *)
 EXTENDS Integers, Sequences, Json, IOUtils, TLC
 Traces == ndJsonDeserialize(IOEnv.TRACE_FILE)
-VARIABLES registered, conn, listening, inst, gen, explicit, tid, l, phase
-vars == <<registered, conn, listening, inst, gen, explicit, tid, l, phase>>
+VARIABLES registered, conn, listening, inst, gen, explicit, tid, l, phase, gobs
+vars == <<registered, conn, listening, inst, gen, explicit, tid, l, phase, gobs>>
 Ev == Traces[tid][l]
 Tr == INSTANCE TaskReg WITH Restart <- TRUE
 Fl == INSTANCE TaskReg WITH Restart <- FALSE
@@ -16,17 +16,20 @@ Act(op, b) ==
     [] op = "lost"   -> IF conn THEN (IF b THEN Tr!Lost ELSE Fl!Lost) ELSE Tr!SameState
     [] op = "conn"   -> IF ~conn THEN (IF b THEN Tr!Connected ELSE Fl!Connected) ELSE Tr!SameState
     [] op = "tick"   -> Tr!SameState
-TInit == tid \in 1..Len(Traces) /\ l = 2 /\ phase = 0 /\ Tr!Init
+TInit == tid \in 1..Len(Traces) /\ l = 2 /\ phase = 0 /\ gobs = 0 /\ Tr!Init
 \* phase 0 -> 1: the operation itself;  phase 1 -> 0: the instance may end by itself before the observation is taken
 Step ==
   /\ l <= Len(Traces[tid]) /\ UNCHANGED tid
   /\ \/ /\ phase = 0 /\ phase' = 1 /\ l' = l
         /\ Act(Ev.op, Traces[tid][1].restart = 1)
-        /\ (Ev.new = 1) <=> (gen' # gen)
-     \/ /\ phase = 1 /\ phase' = 0 /\ l' = l + 1
-        /\ (Tr!Finish \/ UNCHANGED <<registered, conn, listening, inst, gen, explicit>>)
-        /\ inst' = Ev.live
-        /\ Ev.running <= inst'
+        \* noobs = 1: the next call followed at once, nothing was observed (gobs: instances created up to the last observation)
+        /\ (Ev.noobs = 0 => ((Ev.new = 1) <=> (gen' # gobs)))
+        /\ gobs' = (IF Ev.noobs = 1 THEN gobs ELSE gen')
+     \/ /\ phase = 1 /\ phase' = 0 /\ l' = l + 1 /\ UNCHANGED gobs
+        /\ IF Ev.noobs = 1 THEN UNCHANGED <<registered, conn, listening, inst, gen, explicit>>
+           ELSE /\ (Tr!Finish \/ UNCHANGED <<registered, conn, listening, inst, gen, explicit>>)
+                /\ inst' = Ev.live
+                /\ Ev.running <= inst'
 Inv == Tr!NeverTwice /\ Tr!RemovedMeansCancelled /\ (Traces[tid][1].restart = 1 => Tr!NotRunningWhileDisconnected)
 \* the invariants are part of the step: a trace leading to a violating state is rejected (and reported), TLC does not abort
 TStep == Step /\ Inv'
